@@ -34,6 +34,7 @@ def shouldInstr (cfg : Cfg) (name : String) (tags : List String) (keyed : Bool :
 def nFrame := "__ptera_frame"
 def nAbsent := "__ptera_ABSENT"
 def nNameError := "__ptera_PteraNameError"
+def nPyNameError := "__ptera_NameError"
 def nKey := "__ptera_Key"
 def nGetTags := "__ptera_get_tags"
 def nSuspend := "__ptera_suspend"
@@ -368,8 +369,11 @@ def fetchExternal (cfg : Cfg) (x : String) : Stmt :=
   else
     .ite (.binop "In" (.str x) (.name nGlobals)) fetch []
 
+/-- `try: interact('x', None, None, x, False) except NameError: pass` (or `try: x except …`): the cell of a closure
+    variable may still be empty when the function is called -/
 def fetchFree (cfg : Cfg) (x : String) : Stmt :=
-  .expr (interactE cfg x .noneLit none (.name x) false)
+  .try [.expr (interactE cfg x .noneLit none (.name x) false)]
+    [.mk (some (.name nPyNameError)) none [.pass]] [] []
 
 def endsWithReturn : List Stmt → Bool
   | [] => false
